@@ -287,7 +287,7 @@ pub fn judge_c02(c: &GenCase, a: &Analysis, st: &mut Stats) -> Result<bool, Fail
 pub fn run_c02(ctx: &Ctx) -> Outcome {
     let mut out = Outcome::new(
         "Safe GenCases weighted to (a) 3000-8000 opcodes (memo well beyond 256 entries) and (b) OffByOne / MemoIndex(safe) first in the \
-         mutator list at rate 1.0. Oracle: reference machine memo rules (GET defined earlier, PUT-family index fresh, PUT-family operand \
+         mutator list at rate 1.0, (c) 16 programs of 34 000..40 000 opcodes (memo beyond 2048 entries). Oracle: reference machine memo rules (GET defined earlier, PUT-family index fresh, PUT-family operand \
          exists and is not MARK). Non-trivial = >= 1 GET-family opcode and (memo >= 256 entries or a memo-index mutator at rate 1.0).",
     );
     let want = Want { machine: true, ..Default::default() };
@@ -306,6 +306,12 @@ pub fn run_c02(ctx: &Ctx) -> Outcome {
     small2.favour = vec![MutK::Offbyone, MutK::Memoindex];
     small2.favour_pct = 60;
     drive(ctx, &mut out, 3, &small2, ctx.n(10_000, 300_000), want, judge_c02, None);
+    // a few programs whose memo passes every power of two up to 2048 entries (34 000..40 000 opcodes; ~2 200..2 700
+    // memo entries), one generation per protocol and entropy mode
+    let mut huge = Profile::safe();
+    huge.size = SizeMode::Range(34_000, 40_000);
+    huge.favour_pct = 0;
+    drive(ctx, &mut out, 4, &huge, ctx.n(16, 200), want, judge_c02, None);
     if !out.failed() && out.inconclusive.is_none() {
         if out.stats.get("nontrivial: GET with memo>=256") == 0 || out.stats.get("nontrivial: GET under memo-index mutator at rate 1") == 0 {
             out.inconclusive = Some("a required class (memo>=256 / memo mutator at rate 1) was not produced".into());
